@@ -258,6 +258,8 @@ example : let s := runRounds Expected.progs [0, 1] 100 (init .safe false [] [[.n
 end Ro.C06
 
 #print axioms Ro.KernelTie.progs_are_the_source
+#print axioms Ro.KernelTie.collect_wrapper_is_the_source
+#print axioms Ro.KernelTie.subscribe_wrapper_is_the_source
 #print axioms Ro.C06.kernel_status_monotone
 #print axioms Ro.C06.kernel_closed_after_return
 #print axioms Ro.C06.kernel_unsubscribe_cuts
